@@ -19,6 +19,8 @@ def gen_def(r):
     d = dict(code=r.choice([1, 2, 3, 5, 1000, 0, 0xffffffff, 264, 10415]), vendor=r.choice([None, None, 1, 2, 3, 10415, 0, 0xffffffff]),
              name=r.choice(NAMES), tyname=r.choice(TYNAMES[:16] if r.chance(4, 5) else TYNAMES).encode(), must=r.choice(MUSTS),
              may=r.choice([None, b"M", b"P"]))
+    if r.chance(1, 6):
+        d["pad"] = True          # zero-padded decimal attributes
     if r.chance(1, 4):
         # enumeration items listed under whatever type the definition has (documentation: the type attribute is the type)
         d["items"] = [(1, b"ONE"), (2, b"TWO")][: r.range(1, 2)]
@@ -519,6 +521,15 @@ def check_C15(chk, tier, seed):
                 cases.append(f"X {did} {xb(one_avp_frame(c, v, SAMPLE_DATA[ty]))}")
                 # the payload of another declaration's type: typed by the LAST declaration all the same (refused if it does not fit it)
                 expect.append(("kind-or-refuse", last, f"({c}, {v}) declared under applications {order} in this order, payload of a {TY_XML_NAME[ty]}"))
+    # attributes written as zero-padded decimals (code="0300", vendor-id="010415", digits 0-7 only and with 8 / 9): decimal, as ever
+    did = f"t{k}"
+    k += 1
+    apps = [dict(name=b"GenApp", id=4, cmds=[], avps=[dict(code=300, vendor=None, name=b"Pad-A", tyname=b"Unsigned32", must=None, pad=True), dict(code=5001, vendor=10415, name=b"Pad-B", tyname=b"Unsigned32", must=None, pad=True),
+                                                       dict(code=1899, vendor=None, name=b"Pad-C", tyname=b"UTF8String", must=None, pad=True), dict(code=100, vendor=10, name=b"Pad-D", tyname=b"Unsigned32", must=None, pad=True)])]
+    prelude.append(dict_line(did, [load_toks(gen_xml(apps), apps)]))
+    for (c, v, ty) in ((300, None, "u32"), (5001, 10415, "u32"), (1899, None, "utf"), (100, 10, "u32"), (192, None, None), (5001, 4365, None), (64, 8, None), (64, 10, None)):
+        cases.append(f"X {did} {xb(one_avp_frame(c, v, SAMPLE_DATA[ty or 'u32']))}")
+        expect.append(("scope", ty, f"({c}, {v}) against a document that writes its numbers with a leading zero", None, v))
     # many Grouped AVPs side by side (40 at top level each with one member; one group with 40 grouped members): the nesting limit is
     # about depth, not about how many groups a message holds - every one is typed
     did = f"t{k}"
@@ -742,7 +753,11 @@ def check_C16(chk, tier, seed):
     doc1 = [dict(name=b"Base", id=0, cmds=[(b"Op-Cmd-A", 257)], avps=[odef(b"Op-Base-One", 6001, None, "u32", b"M"), odef(b"Op-Base-Two", 6002, None, "utf", None)]),
             dict(name=b"Operator App", id=16777238, cmds=[], vendor_elem=10415,
                  avps=[odef(b"Op-Tariff-Class", 6101, 10415, "u32", b"V,M"), odef(b"Op-Plain-Token", 6102, None, "oct", None), odef(b"Op-Plain-M", 6103, None, "u32", b"M")])]
-    doc2 = [dict(name=b"Base", id=0, cmds=[], avps=[odef(b"Op-Base-Three", 6003, None, "u64", b"M"), odef(b"Op-Base-Four", 6004, None, "id", None)]),
+    doc2 = [dict(name=b"Base", id=0, cmds=[], avps=[odef(b"Op-Base-Three", 6003, None, "u64", b"M"), odef(b"Op-Base-Four", 6004, None, "id", None),
+                                                       # names outside the RFC 6733 diameter-name grammar (a digit first, '_', '.', a blank, non-ASCII): a name is what the dictionary says it is
+                                                       odef(b"3GPP-IMSI-X", 6005, None, "utf", b"M"), odef(b"Operator_Note", 6006, None, "utf", None), odef(b"Acme.Trace-Id", 6007, None, "u32", None),
+                                                       odef(b"Two Words", 6008, None, "u32", None), odef("Gebühr".encode(), 6009, None, "u32", b"M"), odef(b"x", 6010, None, "u32", None),
+                                                       odef(b"Op-Event-Time", 6011, None, "time", b"M")]),
             dict(name=b"Operator App", id=16777238, cmds=[], vendor_elem=10415,
                  avps=[odef(b"Op-Later-Plain", 6104, None, "utf", b"M"), odef(b"Op-Later-Vendor", 6105, 10415, "oct", b"V")]),
             dict(name=b"Another App", id=4, cmds=[], vendor_elem=193, avps=[odef(b"Op-Other-Plain", 6201, None, "i32", None)])]
@@ -889,6 +904,14 @@ def check_C16(chk, tier, seed):
                 vs = [("L", (d["ty"], b"abcd")), ("L", (d["ty"], b"abcdefghijk")), ("L", (d["ty"], b"")), ("L", (d["ty"], b"xy"))][: 2 + j % 3]
                 cases.append(hist_line(did, start, [("ADDNAME", d["name"], x) for x in vs] + post))
                 expect.append(("inhistory", hist_line(did, start, [("ADDAVP", d["code"], d["vendor"], 0x40 if d["m"] else 0, x) for x in vs] + post), None, did))
+    # a by-name build with a value the wire cannot carry (a Time in 2040, in 1899): the builder does not encode - the AVP is appended exactly
+    # as add_avp appends it (whether the message can be encoded is C05's business)
+    for did, nm, code in (("b", b"Event-Timestamp", 55), ("op2", b"Op-Event-Time", 6011)):
+        for tval in (2208988800, 4102444800, -2208988801):
+            v = ("L", ("time", tval))
+            pre = [("ADDAVP", 264 if did == "b" else 6001, None, 0x40, ("L", ("id", b"h.example") if did == "b" else ("u32", 5)))]
+            cases.append(hist_line(did, ("NEW", 272, 4, 0x80, 1, 2), pre + [("ADDNAME", nm, v)] + pre))
+            expect.append(("inhistory", hist_line(did, ("NEW", 272, 4, 0x80, 1, 2), pre + [("ADDAVP", code, None, 0x40, v)] + pre), None, did))
     # unknown names interleaved in histories: the failed call must change nothing
     n = 600 if tier == "quick" else 30000
     for i in range(n):
